@@ -895,6 +895,44 @@ def reuse_stream(ck, specs: list[dict]) -> None:
                                           "behaves like a fresh instance"})
 
 
+def dup_output_family() -> list[dict]:
+    """Graphs that return the same value more than once: main graph, If branch at depth 1, nested If at depth 2,
+    a subgraph inside a function body, mixed with a graph input returned directly."""
+    def branch(pfx, outer_val, dup=True, inner=None):
+        nodes = [{"name": pfx + "r", "op": "Relu", "ins": [outer_val], "outs": [pfx + "t"]}]
+        outs = [pfx + "t", pfx + "t"] if dup else [pfx + "t", pfx + "u"]
+        if not dup:
+            nodes.append({"name": pfx + "n", "op": "Neg", "ins": [outer_val], "outs": [pfx + "u"]})
+        if inner is not None:
+            nodes.append(inner)
+            outs = [inner["outs"][0], inner["outs"][1]] if not dup else [inner["outs"][0], inner["outs"][0]]
+        return {"name": pfx + "g", "inputs": [], "inits": [], "nodes": nodes, "outputs": outs}
+
+    def if_node(pfx, x, cond, dup_then=True, dup_else=False, inner_then=None):
+        return {"name": pfx + "if", "op": "If", "ins": [cond], "outs": [pfx + "y1", pfx + "y2"], "typed": True,
+                "attrs": {"then_branch": {"graph": branch(pfx + "t", x, dup_then, inner_then)},
+                          "else_branch": {"graph": branch(pfx + "e", x, dup_else)}}}
+
+    def model(nodes, outputs, funcs=(), inputs=("x0", "cond")):
+        g = {"name": "g", "inputs": list(inputs), "inits": [], "nodes": nodes, "outputs": outputs,
+             "opsets": {"": 20, "fdom": 1} if funcs else {"": 20}}
+        return {"graph": g, "functions": list(funcs), "names": {}}
+    fam = [
+        model([if_node("a", "x0", "cond")], ["ay1", "ay2"]),                                   # depth 1, then-branch
+        model([if_node("a", "x0", "cond", True, True)], ["ay1", "ay2"]),                       # both branches
+        model([if_node("a", "x0", "cond", False, False, if_node("b", "x0", "cond"))], ["ay1", "ay2"]),   # depth 2 only
+        model([if_node("a", "x0", "cond", True, False, if_node("b", "x0", "cond", True, True))], ["ay1", "ay1"]),  # 1+2+main
+        model([if_node("a", "x0", "cond")], ["ay1", "x0", "x0"]),                              # + direct input twice
+        model([{"name": "r", "op": "Relu", "ins": ["x0"], "outs": ["v0"]}], ["v0", "v0", "v0"], inputs=("x0",)),
+    ]
+    fbody = {"name": "Fg", "inputs": ["Fx", "cond"], "inits": [], "outputs": ["Fy1", "Fy1"], "opsets": {"": 20},
+             "nodes": [if_node("F", "Fx", "cond")]}
+    fbody["nodes"][0]["outs"] = ["Fy1", "Fy2"]
+    fam.append(model([{"name": "call", "op": "F0", "domain": "fdom", "ins": ["x0", "cond"], "outs": ["c1", "c2"]}], ["c1", "c2"],
+                     funcs=[{"domain": "fdom", "name": "F0", "graph": fbody}]))
+    return fam
+
+
 def gen_composition(rng, names: list[str]):
     k = rng.random()
     pick = lambda: rng.choice(names)  # noqa: E731
@@ -960,6 +998,12 @@ def oracle_sweep(ck, n_specs: int, n_comp: int, specs_first: list[dict]) -> list
                        {"fun": "RemoveUnusedFunctions"}):
                 run(spec, ps)
         reuse_stream(ck, specs)
+        for spec in dup_output_family():      # the same value returned more than once (subgraphs, functions)
+            for name in names:
+                run(spec, name)
+            for ps in ({"fun": "OutputFix"}, {"mgr": ["OutputFix", "IdentityElimination"], "steps": 2, "early": True},
+                       {"seq": ["OutputFix", "TopologicalSort", "Checker"]}):
+                run(spec, ps)
     if n_specs >= 100:          # the main sweep (not the short search rounds): exhaustive optional-output family
         fam = optional_output_specs()
         for spec in fam:
